@@ -546,3 +546,15 @@ func CheckOneShot(kind string, pc, extra, modelVars []*Term, timeout time.Durati
 	}
 	return res, model, ""
 }
+
+
+// ParseModelText extracts the (name value) pairs of a get-value answer from raw solver output.
+func ParseModelText(out string) map[string]uint64 {
+	m := map[string]uint64{}
+	i := strings.Index(out, "((")
+	if i < 0 {
+		return m
+	}
+	parseModel(out[i:], m)
+	return m
+}
